@@ -160,7 +160,7 @@ func genC06(t *rapid.T) *Case {
 	p.Title = false
 	p.LenMix = [3]int{15, 35, 50}
 	p.Inline = []wc{{"text", 50}, {"b", 4}, {"em", 3}, {"span", 3}, {"a", 22}, {"ajsn", 2}, {"br", 2}, {"font", 2}}
-	media := []wc{{"figure", 8}, {"img", 7}, {"picture", 5}, {"lazy", 3}, {"video", 7}, {"dtable", 7}, {"list", 5}}
+	media := []wc{{"figure", 8}, {"img", 7}, {"picture", 5}, {"lazy", 3}, {"video", 7}, {"dtable", 7}, {"list", 5}, {"linkwrapped", 5}}
 	p.Core = append(append([]wc{}, p.Core...), media...)
 	p.Top = append(append([]wc{}, p.Top...), media...)
 	p.URL = func(g *G, kind string) string {
